@@ -16,7 +16,7 @@ CLAIMS = {
             "the theorems, and the reference decoder is also run on the REAL builder's matrix for every (version, level) "
             "cell (differential correspondence of model and code cell by cell) and must return the input bytes.",
             "Trusted: Lean kernel (+ propext, Classical.choice, Quot.sound); native_decide for the closed checkers "
-            "templateOk/scanOk/formatPosOk/interleaveOk/deintOk over the regenerated tables; hand model tied by "
+            "templateOk/scanOk/interleaveOk/deintOk over the regenerated tables; hand model tied by "
             "correspondence; Spec.Decode as my reading of ISO 18004 clause 11 (no error correction: exact agreement).",
             "Lean 4 theorem C01_roundtrip (symbolic, all inputs; tier K/N finite checks on regenerated tables) + reference decoder in Lean run on real symbols"),
     "C02": ('proof',
@@ -25,11 +25,11 @@ CLAIMS = {
             'Lean 4 symbolic algebra over GF(256) + decide +kernel on regenerated tables + syndrome check of real symbols'),
     "C03": ('proof',
             'Lean 4: C03_invariance — for EVERY input and every level / mask / mode / version option for which the model builder returns a symbol, the side is 17+4v and every finder, separator, timing, alignment and dark-module cell has the ISO value (blank symbol = ISO map for all 40 versions by the native_decide checker templateOk with a kernel-checked lift; data placement, format writer and all eight masks provably change only Data- and Format-typed cells); alignment grid = Annex E, no access outside size x size (C03_template_in_bounds). Spec verdict on real symbols of every version x level x mask incl. the backing array beyond size^2.',
-            'Trusted: Lean kernel; native_decide on templateOk/scanOk/formatPosOk; hand model of default.rs/placement.rs/datamasking.rs tied by correspondence; Spec.Regions as my reading of ISO 6.3 / Annex E.',
+            'Trusted: Lean kernel; native_decide on templateOk/scanOk; hand model of default.rs/placement.rs/datamasking.rs tied by correspondence; Spec.Regions as my reading of ISO 6.3 / Annex E.',
             'Lean 4 proof (tier N closed checkers with kernel-checked lifts + symbolic invariance through placement, format writer and masks) + differential correspondence'),
     "C04": ('proof',
             'Lean 4: all 32 format words = BCH(15,5)(level bits, mask) xor 0x5412, all 34 version words = BCH(18,6), side = 17+4v, format words distinct (decide +kernel on regenerated tables); C04_format_in_symbol — in EVERY symbol the model builder returns each position of Figure 25 (both copies) holds the corresponding bit of the BCH word of the REPORTED (level, mask) and masks never touch it; C04_version_in_symbol — in every built symbol of version 7..40 each position of Figure 26 (both copies) holds the corresponding bit of the BCH(18,6) word of the REPORTED version, whatever payload, level and mask (C04_version_cells + nothing outside encoding region and format cells ever changes); that the physically encoded level/mask/version are the reported ones is also read back by the reference decoder in C01_roundtrip; reported fields = forced options, default Q, classifier mode (C04_fields). Spec verdict on real symbols, exhaustive 4x8x40.',
-            'Trusted: Lean kernel; native_decide on formatPosOk/versionCellsOk/templateOk/scanOk; translator; ISO figure coordinates as transcribed.',
+            'Trusted: Lean kernel; native_decide on versionCellsOk/templateOk/scanOk; translator; ISO figure coordinates as transcribed.',
             'Lean 4 decide +kernel on regenerated tables + symbolic placement theorem + exhaustive differential check'),
     "C06": ('proof',
             "Lean 4, fully symbolic, for EVERY payload of the mode's alphabet, every mode, level and version it fits: the byte-level push_bits (shifts, KEEP_LAST masks, |=, the push_u8 loop, +=) appends exactly the w low bits, most significant first, for every width <= 64 and alignment, keeps 'bits beyond len are zero' and never traps (C06_push_bits, Nat.testBit reasoning); encode::encode emits segment ++ terminator ++ bit padding ++ pad codewords (C06_segment); the first data_codewords bytes equal the independent ISO 7.4 encoder Spec.Bitstream.codewords (C06_bitstream). Tables (KEEP_LAST, pad bytes, count widths, alphanumeric values) are regenerated and checked by decide +kernel. Correspondence: push_bits scripts through the hook for every (len%8, width 0..64); data codewords read back from real symbols vs the ISO encoder.",
@@ -44,11 +44,11 @@ CLAIMS = {
             "Table 10 condition holds (C08_mask_flips: induction over the sweep + SweepSym.count_parity: visit parity of each of the eight sweeps = Table 10 condition proved symbolically for EVERY side n, no native_decide), "
             "involution, pair difference, same unmasked matrix (C08_involution, C08_pair, C08_unmask_same); C08_final_pair / C08_final_unmask: two FINAL symbols of the same codewords built with masks a and b differ on encoding-region modules exactly where the ISO conditions disagree and are identical on every module that is neither encoding region nor format information, for every codeword sequence and level. Exhaustive unit "
             "correspondence: real datamasking::mask on the real blank symbols 40 x 8 x 2; all 28 mask pairs of real builds.",
-            "Trusted: Lean kernel (the mask-sweep fact is symbolic since round 8; remaining native_decide facts reached through the built-symbol theorems: templateOk/scanOk/formatPosOk); hand model of datamasking.rs tied by exhaustive unit correspondence.",
+            "Trusted: Lean kernel (the mask-sweep fact is symbolic since round 8; remaining native_decide facts reached through the built-symbol theorems: templateOk/scanOk); hand model of datamasking.rs tied by exhaustive unit correspondence.",
             "Lean 4 symbolic induction + tier N parity checker + exhaustive differential unit check"),
     "C10": ('proof',
             "Lean 4: C10_total — for EVERY byte string and every legal option combination whose mode (forced or automatic) can represent the input, the trap-instrumented model of QRBuilder::build records no trap (every index, slice, checked subtraction, u8 +=, assert, unreachable, PERCENT_SCORE index, u32 sum of the Rust code is a trap point of the model): composed from the bit-buffer law, structure's bounds, the blank-symbol / scan / sweep checkers, placed-bit count = 8*codewords + remainder (the debug_assert), score bounds and the format writer; C10_total_auto needs no alphabet hypothesis. Real builder run with debug-assertions and overflow-checks on lengths 0..8000, every capacity boundary of the implementation's own table, every byte value in digit/alnum context.",
-            "Trusted: Lean kernel; native_decide for templateOk/scanOk/formatPosOk/interleaveOk; hand model tied by correspondence incl. a malformed stream that validates the model's traps. Not modelled: stack/heap exhaustion.",
+            "Trusted: Lean kernel; native_decide for templateOk/scanOk/interleaveOk; hand model tied by correspondence incl. a malformed stream that validates the model's traps. Not modelled: stack/heap exhaustion.",
             'Lean 4 proof of trap-freedom of an instrumented model (symbolic + tier K/N) + differential run with overflow checks on'),
     "C11": ("proof",
             "Lean 4: C11_documented (proved) — for every version, level and EVERY codeword sequence, with no mask forced the mask "
@@ -56,17 +56,17 @@ CLAIMS = {
             "declaratively: 40 per 1011101 window and N-2 per run of N>=5 equal encoding-region modules along every row and "
             "column, 3 per 2x2 block, 10 per 5% step of the dark ratio) of its candidate is minimal among the eight candidates over "
             "the same placed codewords. Ingredients: C11_line (the single-pass scanner with its shift register and run counter = "
-            "windows + runs, for every line), squares = blocks (rolling buffer; uses that columns 0 and 1 carry equal labels: tier N "
+            "windows + runs, for every line), squares = blocks (rolling buffer; uses that columns 0 and 1 carry equal labels: tier K "
             "col01Ok), PERCENT_SCORE = 10*k (tier K), C11_score_is_documented, C11_select_min (fold returns an argmin for every "
             "score list), C11_forced. Recorder hook: the 8 real candidates are masks of one placed matrix, each ranking score "
             "equals the model's and Spec.Penalty of that candidate, the emitted mask is a minimiser and the emitted symbol carries "
             "it. Defect found and fixed (columns were scored on the unmasked transpose).",
-            "Trusted: Lean kernel (+ propext, Classical.choice, Quot.sound); native_decide for templateOk/col01Ok; "
+            "Trusted: Lean kernel (+ propext, Classical.choice, Quot.sound); native_decide for templateOk; "
             "hand model of score.rs / place_on_matrix tied by the recorder correspondence; Spec.Penalty as my reading of the crate's documented penalty.",
             "Lean 4 symbolic proof (scanner simulation, fold invariants) + declarative penalty in Lean evaluated on the recorded real candidates"),
     "C15": ('proof',
             'Lean 4: C15_labels — for EVERY input and option combination for which the model builder returns a symbol, the label of every module is its ISO region (blank symbol labels = ISO regions for all 40 versions by templateOk; set / toggle / the format writer preserve labels), Data cells in scan order = ISO read-out sequence, count = 8*codewords + remainder (scanOk). Spec verdict on real symbols: module_type() of every module = Spec.Regions, for every version x level x mask.',
-            'Trusted: Lean kernel; native_decide on templateOk/scanOk/formatPosOk; Spec.Regions as my reading of ISO 18004 6.3/Annex E.',
+            'Trusted: Lean kernel; native_decide on templateOk/scanOk; Spec.Regions as my reading of ISO 18004 6.3/Annex E.',
             'Lean 4 tier N checkers with kernel-checked lifts + symbolic label preservation + differential check of every label'),
     "C05": ("proof",
             "Lean 4 theorems for every length, mode and level: the regenerated graph of Version::get equals the ISO least-fitting-version function (C05_get), the builder's error mapping (C05_build), header+payload bits never exceed the data bits of the returned version, forced or automatic (C05_no_overflow), count < 2^cci (C05_count_fits). Tables are re-extracted from the compiled source on every run, so the kernel re-checks the theorems against the current code; the public builder is additionally run on boundary/exhaustive lengths and compared with spec and model.",
